@@ -46,6 +46,12 @@ pub fn rat_of(r: &anything::Rational) -> BigRational {
 pub fn unit_parts(c: &Compound) -> UnitParts {
     let bytes = serde_cbor::to_vec(c).expect("compound serialises");
     let v: Value = serde_cbor::from_slice(&bytes).expect("cbor value");
+    unit_parts_of_value(&v)
+}
+
+/// The same reading applied to a raw CBOR unit value (e.g. the `unit` field of
+/// a shipped constant decoded without any of the subject's types).
+pub fn unit_parts_of_value(v: &Value) -> UnitParts {
     let mut out = Vec::new();
     let names = match &v {
         Value::Map(m) => m.get(&Value::Text("names".into())).cloned(),
